@@ -58,8 +58,9 @@ def error_sink(ctx):
         loop = next((a for a in ancestors(c) if isinstance(a, ast.For)), None)
         if loop is None or 'accessibles' not in src(loop.iter):
             continue
-        inloop = [n for n in opt if any(a is loop for a in ancestors(n))]
-        ok = bool(inloop) and all(cfg.dominates(cfg.ids(n.test), i) for n in inloop for i in cfg.node_of(c))
+        # the pop lies only where a test established that the accessible is not optional (`if aobj.optional: continue` before
+        # it, or an enclosing `if not aobj.optional:`)
+        ok = set(cfg.node_of(c)) <= sides_with_fact(cfg, lambda a, tv: not tv and src(a).endswith('.optional'))
         ctx.check(ok, f'{init.qualname}:configuration consumed only for implemented accessibles', c,
                   '`if aobj.optional: continue` precedes cfgdict.pop(aname)',
                   'the configuration entry is popped before the optional-accessible guard: a configuration naming a parameter the class does '
